@@ -26,6 +26,19 @@ C05 — kernel-checked witnesses.
    No C11 semantics; the general theorem `C05_parse_spec_partial` leaves the region out (it covers ranges whose initializer is
    brace-enclosed, a string literal or one expression for the whole element: there chibicc and gcc agree).
 
+1d. Note (region `InitSpec.FlexReinit`): a second initializer for the flexible array member of the declared object (GNU: static
+   initialization of a flexible array member; no C11 semantics, gcc is the judge).  gcc lets the array grow with every
+   initializer; parse.c fixes the length when the first initializer reaches the member (`count_array_init_elements` in
+   `array_initializer1/2`, or the length of a string literal) and skips what lies beyond as excess elements:
+      struct S { int a; int f[]; } s = { 1, {1}, .f = 2, 3 };     chibicc: f = {2}, sizeof 8;   gcc: f = {2, 3}, 12 bytes
+   (also `{ .f = {1, 2}, .f[1] = 5, 6 }`, `{ 1, {5}, .a = 7, 2, 3 }`).  A designator INTO the unresolved member (`.f[2] = 9` as its
+   first initializer) is rejected by chibicc ("array designator index exceeds array bounds"; gcc accepts).  The general theorem
+   `C05_parse_spec_partial` covers every declared struct with flexible array member outside the region.
+
+1e. The relocation cursor of `write_gvar_data` (Model/InitCursor.lean): an aggregate arm that returns the cursor it was given
+   instead of the cursor of its recursive calls loses relocations.  One witness per arm (array, struct, union); the seeded
+   change C05b was the union arm.
+
 2. Repaired defect (`fix:` in /repo): `_Bool` bit-field, static storage.  `write_gvar_data` masked the unconverted value while
    `create_lvar_init` assigns (and so converts):
       struct B { _Bool b : 1; } s = { 2 };     pre-fix static: b == 0 (2 & 1), automatic: b == 1
@@ -38,6 +51,7 @@ C05 — kernel-checked witnesses.
 import ChibiVerif.Model.Init
 import ChibiVerif.Spec.InitSpec
 import ChibiVerif.Lemmas.InitLeafLemmas
+import ChibiVerif.Model.InitCursor
 
 namespace ChibiVerif.Findings.C05
 open ChibiVerif.Init
@@ -128,6 +142,62 @@ theorem C05_note_wide_range :
     objectOf (parseInit tArr2 wideToks) tArr2 = some ([1,0,0,0, 2,0,0,0, 1,0,0,0, 2,0,0,0].map Cell.byte) ∧
     objectOf (InitSpec.init tArr2 wideToks) tArr2 = some ([1,0,0,0, 0,0,0,0, 1,0,0,0, 2,0,0,0].map Cell.byte) ∧
     InitSpec.WideRange tArr2 wideToks = true := by decide
+
+/-! ### region FlexReinit -/
+
+/-- `struct S { int a; int f[]; }` -/
+def tFlex : Ty := .struct [(⟨some "a", 0, none⟩, tInt), (⟨some "f", 4, none⟩, .array tInt 0)] 4 true
+/-- `{ 1, {1}, .f = 2, 3 }` -/
+def flexToks : List ITok := [.lbrace, n 1, .comma, .lbrace, n 1, .rbrace, .comma, .dot "f", .eq, n 2, .comma, n 3, .rbrace]
+
+/-- the object of a parse result under the type `initializer()` gives it -/
+def objectOfR (r : Except Fail (Init × List ITok)) (ty : Ty) : Option (List Cell) :=
+  match r with
+  | .ok (t, _) => (staticObject t (resolveTy ty t)).toOption
+  | .error _ => none
+
+/-- chibicc (the model): the first initializer `{1}` fixed the length 1, the `3` is an excess element; the specification (gcc):
+    the array grows to 2 elements; the input lies in the region `FlexReinit` and in no other -/
+theorem C05_note_flex_reinit :
+    objectOfR (parseInit tFlex flexToks) tFlex = some ([1,0,0,0, 2,0,0,0].map Cell.byte) ∧
+    objectOfR (InitSpec.init tFlex flexToks) tFlex = some ([1,0,0,0, 2,0,0,0, 3,0,0,0].map Cell.byte) ∧
+    InitSpec.FlexReinit tFlex flexToks = true ∧ InitSpec.BraceOverride tFlex flexToks = false ∧
+      InitSpec.AggExprOverride tFlex flexToks = false ∧ InitSpec.WideRange tFlex flexToks = false := by decide
+
+/-- the first initializers of a flexible member are outside the region: `{ 1, 2, 3 }` (elided), `{ .f = {2, 3}, .a = 1 }` -/
+theorem C05_note_flex_first :
+    InitSpec.FlexReinit tFlex [.lbrace, n 1, .comma, n 2, .comma, n 3, .rbrace] = false ∧
+    InitSpec.FlexReinit tFlex [.lbrace, .dot "f", .eq, .lbrace, n 2, .comma, n 3, .rbrace, .comma, .dot "a", .eq, n 1, .rbrace] = false ∧
+    objectOfR (parseInit tFlex [.lbrace, n 1, .comma, n 2, .comma, n 3, .rbrace]) tFlex
+      = some ([1,0,0,0, 2,0,0,0, 3,0,0,0].map Cell.byte) := by decide
+
+/-! ### the relocation cursor of write_gvar_data -/
+
+def tPtr : Ty := .scalar 8 .ptr
+def addr (l : String) : Init := .leaf (some { ival := 0, nz := true, f32 := 0, f64 := 0, f80 := 0, label := some l })
+/-- `void *a[2] = {&x, &y}; … z = &z` inside `struct { void *a[2]; void *z; }` -/
+def tCurA : Ty := .struct [(⟨some "a", 0, none⟩, .array tPtr 2), (⟨some "z", 16, none⟩, tPtr)] 24 false
+def iCurA : Init := .struct none [.arr [addr "x", addr "y"], addr "z"]
+/-- `struct { struct { void *p; void *q; } s; void *z; }` -/
+def tCurS : Ty := .struct [(⟨some "s", 0, none⟩, .struct [(⟨some "p", 0, none⟩, tPtr), (⟨some "q", 8, none⟩, tPtr)] 16 false),
+  (⟨some "z", 16, none⟩, tPtr)] 24 false
+def iCurS : Init := .struct none [.struct none [addr "x", addr "y"], addr "z"]
+/-- `struct { union { void *p; long n; } u; void *z; }` -/
+def tCurU : Ty := .struct [(⟨some "u", 0, none⟩, .union [(⟨some "p", 0, none⟩, tPtr), (⟨some "n", 0, none⟩, .scalar 8 .int)] 8 false),
+  (⟨some "z", 8, none⟩, tPtr)] 16 false
+def iCurU : Init := .struct none [.union none (some 0) [addr "x", .leaf none], addr "z"]
+
+def relocLabels (r : Except Fail Image) : Option (List String) := r.toOption.map (fun im => im.relocs.map (·.label))
+
+/-- with the cursor handed on by every arm all relocations are linked; an arm that returns the cursor it was given unlinks the
+    relocations written inside it as soon as another one follows -/
+theorem C05_cursor_arms :
+    relocLabels (gvarInitC Arms.code iCurA tCurA) = some ["x", "y", "z"] ∧
+    relocLabels (gvarInitC ⟨false, true, true⟩ iCurA tCurA) = some ["z"] ∧            -- array arm keeps its cursor
+    relocLabels (gvarInitC Arms.code iCurS tCurS) = some ["x", "y", "z"] ∧
+    relocLabels (gvarInitC ⟨true, false, true⟩ iCurS tCurS) = some ["z"] ∧            -- struct arm
+    relocLabels (gvarInitC Arms.code iCurU tCurU) = some ["x", "z"] ∧
+    relocLabels (gvarInitC ⟨true, true, false⟩ iCurU tCurU) = some ["z"] := by decide   -- union arm (seeded C05b)
 
 /-! ### repaired: the empty union -/
 
